@@ -15,6 +15,59 @@ NAV = ["previous-history", "next-history", "beginning-of-history", "end-of-histo
 CORE = NAV[:10]
 
 
+NONINC = ["vi-search-forward", "vi-search-backward", "vi-search-again-forward", "vi-search-again-backward",
+          "non-incremental-forward-search-history", "non-incremental-reverse-search-history"]
+
+
+def search_cases(tier, rng, tag="c09v"):
+    """non-incremental searches: the search text is typed in a minibuffer and Enter runs the search (vi / ? are not bound by
+    default: they are bound here), then the search is repeated with the same text (n, N, ...), forward and backward, with texts
+    that are whole entries, parts of entries, empty, absent, or full of pattern characters"""
+    avail = set(default_binds()["commands"])
+    names = [n for n in NONINC if n in avail]
+    binds, seqs = private_binds(names)
+    for km in ("vi-command",):
+        binds += [{"km": km, "seq": b"/".hex(), "act": "vi-search", "macro": False}, {"km": km, "seq": b"?".hex(), "act": "vi-search", "macro": False}]
+    cases = []
+    for ci in range(120 if tier == "quick" else 1500):
+        mode = "vi" if ci % 4 else "emacs"
+        hist = [rng.choice(ENTRIES) for _ in range(rng.choice([0, 1, 2, 3, 4, 5]))]
+        cs = {"id": "%s-%d" % (tag, ci), "inputrc": "set editing-mode vi\n" if mode == "vi" else "", "w": 80, "h": 24, "prompt": "> ", "binds": binds,
+              "sources": [{"name": "main", "kind": "mem", "lines": hist}], "histsnap": True, "sessions": []}
+        for _ in range(6):
+            sess = []
+            ip = rng.choice(INPROGRESS)
+            if ip:
+                sess.append(keys(ip))
+            if mode == "vi":
+                sess.append(keys(b"\x1bl"))
+            again = [b"n", b"N"] if mode == "vi" else []
+            again += [seqs[n] for n in names if "again" in n]
+            for _ in range(rng.randint(1, 2)):
+                if mode == "vi":
+                    opener = rng.choice([b"/", b"?", b"?", seqs.get("vi-search-backward", b"?"), seqs.get("vi-search-forward", b"/")])
+                else:
+                    opener = seqs[rng.choice([n for n in names if n.startswith("non-incremental")] or names)]
+                sess.append(keys(opener))
+                e0 = rng.choice(hist) if hist and rng.random() < 0.7 else rng.choice(ENTRIES)
+                e0 = e0.replace("\n", " ")
+                r = rng.random()
+                pat = e0 if r < 0.3 else e0[rng.randint(0, len(e0) - 1):][:rng.randint(1, 3)] if r < 0.6 else "" if r < 0.7 else rng.choice(["zz", "a.", "(x", "*", "x[", "two"])
+                for ch in pat:
+                    sess.append(keys(ch))
+                if pat and rng.random() < 0.15:
+                    sess.append(keys(b"\x7f"))
+                sess.append(keys(rng.choice([b"\r", b"\r", b"\r", b"\x07", b"\x03"]) if mode == "emacs" else rng.choice([b"\r", b"\r", b"\r", b"\x1b"])))
+                for _ in range(rng.randint(0, 3)):
+                    sess.append(keys(rng.choice(again)) if again else keys(b"\x10"))
+                    if rng.random() < 0.2:
+                        sess.append(keys(rng.choice([b"k", b"j"]) if mode == "vi" else rng.choice([b"\x10", b"\x0e"])))
+            sess.append(keys(b"\r"))
+            cs["sessions"].append(sess)
+        cases.append(cs)
+    return cases
+
+
 def run(rep, tier, seed):
     rng = random.Random(seed * 2969 + 61)
     wd = workdir("c09")
@@ -91,6 +144,7 @@ def run(rep, tier, seed):
             sess.append(keys(b"\r"))
             cs["sessions"].append(sess)
         cases.append(cs)
+    cases += search_cases(tier, rng)
     log("C09: %d scripts in %d cases" % (len(scripts), len(cases)))
 
     def proj(cs, evs):
@@ -108,7 +162,8 @@ def run(rep, tier, seed):
     run_session_property(rep, cases, proj, "HistoryTrace", "HistoryTrace.cfg", "c09-run", nontrivial=nontrivial)
     rep.rule = ("histories of 0..4 entries over {x, xy, y, multi-line, prefixes of each other, duplicates, non-ASCII}, in-progress buffers {empty, x, "
                 "xy, z, a}; every word of <= %d core navigation/search commands (quick: sampled) and seeded words of 3..8 commands over %d command "
-                "names with interleaved edits and counts, in emacs and vi; Ctrl-R / Ctrl-S sessions typed key by key; non-trivial = distinct "
+                "names with interleaved edits and counts, in emacs and vi; Ctrl-R / Ctrl-S sessions typed key by key; non-incremental searches (vi / ? and the "
+                "non-incremental-*-search-history commands: text typed in the minibuffer, Enter, then repeated with n / N / the again commands); non-trivial = distinct "
                 "(command, buffer before, buffer after) with a changed buffer" % (3 if tier == "quick" else 4, len(nav)))
     rep.explanation = ("TLC checks the transcription of Walk against WalkRule (it found the overshoot defect, since repaired); HistoryTrace tracks "
                        "the position exactly for the walk commands (clamped at both ends, in-progress text restored at position 0, edited "
